@@ -25,7 +25,7 @@ func (c *Ctx) chanKey(v ssa.Value) string {
 			switch a := x.X.(type) {
 			case *ssa.FieldAddr:
 				f := ir.FieldOfAddr(a)
-				return fieldKey(a.X.Type(), f)
+				return c.fieldKey(a.X.Type(), f)
 			case *ssa.FreeVar:
 				return c.cellKey(a)
 			case *ssa.Alloc:
@@ -35,13 +35,13 @@ func (c *Ctx) chanKey(v ssa.Value) string {
 			}
 		}
 	case *ssa.Field:
-		return fieldKey(x.X.Type(), ir.FieldOfValue(x))
+		return c.fieldKey(x.X.Type(), ir.FieldOfValue(x))
 	case *ssa.Parameter:
 		return "param:" + x.Name()
 	case *ssa.FreeVar:
 		return c.cellKey(x)
 	case *ssa.MakeChan:
-		return "local:" + types.TypeString(x.Type(), func(p *types.Package) string { return p.Name() })
+		return "local:" + c.typeStr(x.Type())
 	case *ssa.Call:
 		cal := ir.Resolve(&x.Call)
 		if cal.Func != nil {
@@ -57,14 +57,14 @@ func (c *Ctx) chanKey(v ssa.Value) string {
 			}
 			recv := ""
 			if sig, ok := cal.Func.Type().(*types.Signature); ok && sig.Recv() != nil {
-				recv = types.TypeString(sig.Recv().Type(), func(p *types.Package) string { return p.Name() }) + "."
+				recv = c.typeStr(sig.Recv().Type()) + "."
 			} else if cal.Func.Pkg() != nil {
 				recv = cal.Func.Pkg().Name() + "."
 			}
-			return "call:" + recv + cal.Func.Name()
+			return "call:" + recv + c.on(cal.Func)
 		}
 		if cal.Field != nil {
-			return "callfield:" + cal.Field.Name()
+			return "callfield:" + c.on(cal.Field)
 		}
 	case *ssa.Phi:
 		return "phi:" + x.Comment
@@ -76,18 +76,18 @@ func (c *Ctx) chanKey(v ssa.Value) string {
 	return "?" + fmt.Sprintf("%T", v)
 }
 
-func fieldKey(t types.Type, f *types.Var) string {
+func (c *Ctx) fieldKey(t types.Type, f *types.Var) string {
 	if p, ok := t.Underlying().(*types.Pointer); ok {
 		t = p.Elem()
 	}
 	name := "?"
 	if n, ok := t.(*types.Named); ok {
-		name = n.Obj().Name()
+		name = c.on(n.Obj())
 	}
 	if f == nil {
 		return "field:" + name + ".?"
 	}
-	return "field:" + name + "." + f.Name()
+	return "field:" + name + "." + c.on(f)
 }
 
 // blockingSite is one potentially blocking channel operation.
@@ -284,7 +284,7 @@ func (c *Ctx) cellKey(v ssa.Value) string {
 				t = p.Elem()
 			}
 		}
-		return types.TypeString(t, func(p *types.Package) string { return p.Name() })
+		return c.typeStr(t)
 	}
 	var cell ssa.Value = v
 	if fv, ok := v.(*ssa.FreeVar); ok {
